@@ -273,7 +273,7 @@ def takeBytes (n : Nat) (s : String) : String := (s.take n).toString
 /-- `what()` of an `InputError(ref, msg)` raised while reading `file` -/
 def whatOf (file : String) (ref : Option Ref) (msg : String) : String :=
   match ref with
-  | none => takeBytes diagWhatBufSize msg
+  | none => takeBytes diagWhatNullCopy msg
   | some r => takeBytes (diagWhatBufSize - 1)
       s!"{file}:{r.line + diagWhatLineBase}:{r.column + diagWhatColumnBase}: {msg}"
 
